@@ -103,7 +103,7 @@ class SigError(Exception):
         self.reason = reason
 
 
-def _parse_single(sig: bytes, pos: int, adepth: int, sdepth: int) -> int:
+def _parse_single(sig: bytes, pos: int, adepth: int, sdepth: int, ddepth: int = 0, strict: bool = True) -> int:
     """Parse one single complete type starting at pos; return position after it.
     adepth = array nesting so far, sdepth = struct/dict-entry nesting so far."""
     if pos >= len(sig):
@@ -117,8 +117,8 @@ def _parse_single(sig: bytes, pos: int, adepth: int, sdepth: int) -> int:
         if pos + 1 >= len(sig):
             raise SigError('sig.array-no-element')
         if sig[pos + 1] == ord('{'):
-            return _parse_dict(sig, pos + 1, adepth + 1, sdepth)
-        return _parse_single(sig, pos + 1, adepth + 1, sdepth)
+            return _parse_dict(sig, pos + 1, adepth + 1, sdepth, ddepth, strict)
+        return _parse_single(sig, pos + 1, adepth + 1, sdepth, ddepth, strict)
     if c == ord('('):
         if sdepth + 1 > 32:
             raise SigError('sig.struct-depth')
@@ -130,7 +130,7 @@ def _parse_single(sig: bytes, pos: int, adepth: int, sdepth: int) -> int:
                 raise SigError('sig.struct-unterminated')
             if sig[p] == ord(')'):
                 return p + 1
-            p = _parse_single(sig, p, adepth, sdepth + 1)
+            p = _parse_single(sig, p, adepth, sdepth + 1, ddepth, strict)
     if c == ord('{'):
         raise SigError('sig.dict-not-in-array')
     if c == ord(')'):
@@ -140,10 +140,19 @@ def _parse_single(sig: bytes, pos: int, adepth: int, sdepth: int) -> int:
     raise SigError('sig.unknown-typecode')
 
 
-def _parse_dict(sig, pos, adepth, sdepth):
-    # sig[pos] == '{'
-    if sdepth + 1 > 32:
-        raise SigError('sig.struct-depth')
+def _parse_dict(sig, pos, adepth, sdepth, ddepth, strict):
+    # sig[pos] == '{'.  "A DICT_ENTRY works exactly like a struct": under the strict reading
+    # it counts towards the 32 "open parentheses"; under the lenient reading it has its own
+    # limit of 32 (the text only names parentheses).  Signatures on which the two readings
+    # differ are reported as unspecified (see is_gray).
+    if strict:
+        if sdepth + 1 > 32:
+            raise SigError('sig.struct-depth')
+        sdepth += 1
+    else:
+        if ddepth + 1 > 32:
+            raise SigError('sig.struct-depth')
+        ddepth += 1
     p = pos + 1
     if p >= len(sig):
         raise SigError('sig.dict-unterminated')
@@ -156,7 +165,7 @@ def _parse_dict(sig, pos, adepth, sdepth):
         raise SigError('sig.dict-unterminated')
     if sig[p] == ord('}'):
         raise SigError('sig.dict-arity')
-    p = _parse_single(sig, p, adepth, sdepth + 1)
+    p = _parse_single(sig, p, adepth, sdepth, ddepth, strict)
     if p >= len(sig):
         raise SigError('sig.dict-unterminated')
     if sig[p] != ord('}'):
@@ -166,14 +175,14 @@ def _parse_dict(sig, pos, adepth, sdepth):
     return p + 1
 
 
-def split_signature(sig: bytes):
+def split_signature(sig: bytes, strict: bool = True):
     """Return the list of single complete types, or raise SigError."""
     if len(sig) > MAX_SIG:
         raise SigError('sig.too-long')
     out = []
     p = 0
     while p < len(sig):
-        q = _parse_single(sig, p, 0, 0)
+        q = _parse_single(sig, p, 0, 0, 0, strict)
         out.append(sig[p:q])
         p = q
     return out
@@ -187,6 +196,19 @@ def sig_reason(sig: bytes):
         return e.reason
 
 
+def sig_is_gray(sig: bytes) -> bool:
+    """True when the strict and the lenient reading of the nesting limit disagree."""
+    if sig.count(b'{') == 0 or sig.count(b'(') + sig.count(b'{') <= 32:
+        return False
+    def ok(strict):
+        try:
+            split_signature(sig, strict)
+            return True
+        except SigError:
+            return False
+    return ok(True) != ok(False)
+
+
 def valid_signature(sig: bytes) -> bool:
     return sig_reason(sig) is None
 
@@ -196,3 +218,82 @@ def valid_single_signature(sig: bytes) -> bool:
         return len(split_signature(sig)) == 1
     except SigError:
         return False
+
+
+# --------------------------------------------------------------------------
+# coarse "why invalid" reason codes (used only to fingerprint disagreements)
+
+def _name_reason(b: bytes, allow_hyphen: bool, allow_digit_start: bool, min_elems: int):
+    if len(b) == 0:
+        return 'empty'
+    if len(b) > MAX_NAME:
+        return 'too-long'
+    ok = b'ABCDEFGHIJKLMNOPQRSTUVWXYZabcdefghijklmnopqrstuvwxyz0123456789_' + (b'-' if allow_hyphen else b'')
+    for ch in b:
+        if ch != 0x2e and ch not in ok:
+            return 'bad-char'
+    elems = b.split(b'.')
+    if any(len(e) == 0 for e in elems):
+        return 'empty-element'
+    if len(elems) < min_elems:
+        return 'too-few-elements'
+    if not allow_digit_start and any(e[0:1].isdigit() for e in elems):
+        return 'digit-start'
+    return None
+
+
+def why_invalid(kind: str, b: bytes):
+    """None if valid, else a coarse stable reason code."""
+    if kind in ('iface', 'error'):
+        return _name_reason(b, False, False, 2)
+    if kind == 'member':
+        if b'.' in b:
+            return 'bad-char' if len(b) else 'empty'
+        return _name_reason(b, False, False, 1)
+    if kind == 'bus':
+        if b[:1] == b':':
+            r = _name_reason(b[1:], True, True, 2)
+            if len(b) > MAX_NAME:
+                return 'too-long'
+            if r in ('empty', 'empty-element', 'too-few-elements'):
+                return 'unique-name-elements'   # one defect class: ':' + fewer than two non-empty elements
+            return ('unique-' + r) if r else None
+        return _name_reason(b, True, False, 2)
+    if kind == 'path':
+        if len(b) == 0:
+            return 'empty'
+        if b[0:1] != b'/':
+            return 'no-leading-slash'
+        if b == b'/':
+            return None
+        if b.endswith(b'/'):
+            return 'trailing-slash'
+        if b'//' in b:
+            return 'empty-element'
+        for ch in b:
+            if ch != 0x2f and ch not in b'ABCDEFGHIJKLMNOPQRSTUVWXYZabcdefghijklmnopqrstuvwxyz0123456789_':
+                return 'bad-char'
+        return None
+    if kind == 'sig':
+        return sig_reason(b)
+    if kind == 'sig1':
+        r = sig_reason(b)
+        if r:
+            return r
+        n = len(split_signature(b))
+        return None if n == 1 else ('sig.not-single-%s' % ('empty' if n == 0 else 'multiple'))
+    if kind == 'utf8':
+        return None if valid_utf8(b) else ('utf8.nul' if 0 in b else 'utf8.malformed')
+    raise ValueError(kind)
+
+
+def is_gray(kind: str, b: bytes) -> bool:
+    """Inputs on which the specification text admits two readings: not judged."""
+    if kind in ('sig', 'sig1'):
+        return sig_is_gray(b)
+    return False
+
+
+def is_valid(kind: str, b: bytes) -> bool:
+    return {'iface': valid_interface, 'error': valid_error_name, 'member': valid_member, 'bus': valid_bus_name,
+            'path': valid_path, 'sig': valid_signature, 'sig1': valid_single_signature, 'utf8': valid_utf8}[kind](b)
